@@ -20,10 +20,11 @@
 (*        k = "badre"   tag filter whose Expr does not compile (variant ty)    *)
 (*        k = "garbage" type byte ty (0/1) followed by undecodable bytes       *)
 (*        k = "unknown" an unassigned type byte (variant ty)                   *)
-(*        k = "empty"   a zero-length filter                                   *)
+(*        k = "empty"   a zero-length filter (invalid: excludes the node)      *)
 (* Observation  out = [deliv, ack, rebro, panic]: Query events that reached    *)
 (* the application, ack packets sent to the query's origin, copies of the      *)
-(* query put on the broadcast queue, whether NotifyMsg panicked.               *)
+(* query put on the broadcast queue, whether NotifyMsg panicked (never         *)
+(* expected; the driver calls it under recover).                               *)
 EXTENDS Regex, TLC
 
 CONSTANTS MaxSteps
@@ -60,15 +61,13 @@ FilterOK(tg, f) ==
 \* the node is selected iff every filter selects it
 Selected(tg, fs) == \A i \in DOMAIN fs : FilterOK(tg, fs[i])
 
-HasEmpty(fs) == \E i \in DOMAIN fs : fs[i].k = "empty"
-
 ------------------------------------------------------------------------------
-(* The model of the code (sequential evaluation; an empty filter that is      *)
-(* reached panics on filter[0] -- property C09, not judged here)              *)
+(* The model of the code: sequential evaluation, the first excluding filter    *)
+(* ends it.  A zero-length filter is logged and excludes the node (since       *)
+(* /repo 054cdc5; before that fix the node panicked on filter[0]).            *)
 RECURSIVE Eval(_, _, _)
 Eval(tg, fs, i) ==
   IF i > Len(fs) THEN "pass"
-  ELSE IF fs[i].k = "empty" THEN "panic"
   ELSE IF FilterOK(tg, fs[i]) THEN Eval(tg, fs, i + 1)
   ELSE "fail"
 
@@ -77,11 +76,10 @@ Quiet == [deliv |-> 0, ack |-> 0, rebro |-> 0, panic |-> FALSE]
 Expected(tg, sn, q) ==
   IF <<q.lt, q.id>> \in sn THEN Quiet
   ELSE LET res == Eval(tg, q.fs, 1)
-       IN  IF res = "panic" THEN [Quiet EXCEPT !.panic = TRUE]
-           ELSE [ deliv |-> IF res = "pass" /\ ~Internal(q.name) THEN 1 ELSE 0,
-                  ack   |-> IF res = "pass" /\ q.ack THEN 1 ELSE 0,
-                  rebro |-> IF q.nb THEN 0 ELSE 1,
-                  panic |-> FALSE ]
+       IN  [ deliv |-> IF res = "pass" /\ ~Internal(q.name) THEN 1 ELSE 0,
+             ack   |-> IF res = "pass" /\ q.ack THEN 1 ELSE 0,
+             rebro |-> IF q.nb THEN 0 ELSE 1,
+             panic |-> FALSE ]
 
 ------------------------------------------------------------------------------
 (* Monitor for C08 over (action record, observed output) only.                *)
@@ -89,8 +87,8 @@ Expected(tg, sn, q) ==
 (* application iff Selected and the name has no internal prefix; it sends an  *)
 (* ack iff Selected and the ack flag is set; it queues the query for          *)
 (* re-broadcast iff the no-broadcast flag is clear.  A later sight of the     *)
-(* same (lt, id) is neither delivered nor re-broadcast.  Queries carrying a   *)
-(* zero-length filter are not judged (C09).                                   *)
+(* same (lt, id) is neither delivered nor re-broadcast.  A zero-length filter *)
+(* is an invalid filter like any other: it excludes the node.                 *)
 MonInit == [tags |-> <<>>, seen |-> {}, deliv |-> {}, bad |-> {}]
 
 DeliverClauses(m, q, o) ==
@@ -99,8 +97,7 @@ DeliverClauses(m, q, o) ==
       sel   == Selected(m.tags, q.fs)
       int   == Internal(q.name)
       got   == o.deliv >= 1
-  IN  IF HasEmpty(q.fs) THEN {}
-      ELSE (IF (got => sel) /\ ((first /\ sel /\ ~int) => got) THEN {} ELSE {"C08_deliver_iff_selected"})
+  IN  (IF (got => sel) /\ ((first /\ sel /\ ~int) => got) THEN {} ELSE {"C08_deliver_iff_selected"})
         \cup (IF q.ack /\ first /\ ((o.ack >= 1) # sel) THEN {"C08_ack_iff_selected"} ELSE {})
         \cup (IF o.ack >= 1 /\ ~sel THEN {"C08_ack_iff_selected"} ELSE {})
         \cup (IF ~q.ack /\ o.ack >= 1 THEN {"C08_ack_only_when_asked"} ELSE {})
